@@ -74,6 +74,11 @@ func fnSInterCard(ctx *cmdContext, args map[string]any) (output respValue, err e
 	limit64, _ := args["limit"].(int64)
 	numkeys64 := args["numkeys"].(int64)
 
+	if limit64 < 0 {
+		output.data = respErrorString("ERR LIMIT can't be negative")
+		return
+	}
+
 	numkeys := int(numkeys64)
 	if numkeys < len(keyNames) {
 		output.data = rstrSyntaxError
